@@ -16,6 +16,10 @@ open Np Drv ApplyCal
   delay _|f ( freq .. )                               -> `ok ( c .. )`
   flux ( ( start _|( c .. ) ( name .. ) ) .. ) ( ( name _|f ) .. )
       -> `ok ( ( start _|( c .. ) ) .. )`
+  products ( ( name inp ) .. ) ( ( l1 l2 ) .. ) ( name .. ) ( stream .. ) skip
+      -> `ok ( final product names )` | `E:KeyError` | `E:ValueError`
+         which products `calc_correction` applies / skips / rejects when only the listed
+         (product, input) correction sensors exist (`calcCorrectionIntended` on unit sensors)
   gflux ( measured ) _|( overrides ) ( segs as for flux ) nDumps
       -> `ok ( ( c .. ) .. )`    mergeFlux ∘ calibrateFlux ∘ gainCorrection (no targets), the "G" pipeline
 -/
@@ -164,6 +168,26 @@ def doGflux (args : List SX) : Option String :=
     pure s!"ok {showRows (gainCorrection A R cal n none)}"
   | _ => none
 
+def doProducts (args : List SX) : Option String :=
+  match args with
+  | [have_, cps, names, streams, skip] => do
+    let have_ ← have_.listOf? fun e => match e with
+      | .list [a, b] => do pure ((← a.str?), (← b.str?))
+      | _ => none
+    let cps ← cps.listOf? fun e => match e with
+      | .list [a, b] => do pure ((← a.str?), (← b.str?))
+      | _ => none
+    let names ← names.listOf? SX.str?
+    let streams ← streams.listOf? SX.str?
+    let skip ← skip.bool?
+    let sensors : String → String → Option (List (List CF)) := fun n i =>
+      if have_.any (fun e => e.1 == n && e.2 == i) then some [[A.one]] else none
+    let freqs : String → Option (List Float) := fun s => if streams.contains s then some [1.0] else none
+    pure (match calcCorrectionIntended sensors cps names [1.0] freqs 1e-3 skip with
+      | .ok P => s!"ok {showList showStr (P.prods.map (·.name))}"
+      | .error e => showErr e)
+  | _ => none
+
 def step (line : String) : String :=
   match parseLine line with
   | some (.atom "names" :: args) => (doNames args).getD "bad-op"
@@ -174,6 +198,7 @@ def step (line : String) : String :=
   | some (.atom "delay" :: args) => (doDelay args).getD "bad-op"
   | some (.atom "flux" :: args) => (doFlux args).getD "bad-op"
   | some (.atom "gflux" :: args) => (doGflux args).getD "bad-op"
+  | some (.atom "products" :: args) => (doProducts args).getD "bad-op"
   | _ => "bad-op"
 
 def main : IO Unit := Drv.loop step
